@@ -427,7 +427,7 @@ class Process:
     @wrap_exceptions
     def gids(self):
         rawtuple = self._get_kinfo_proc()
-        return _common.puids(
+        return _common.pgids(
             rawtuple[kinfo_proc_map['rgid']],
             rawtuple[kinfo_proc_map['egid']],
             rawtuple[kinfo_proc_map['sgid']],
